@@ -62,6 +62,10 @@ CHECKS = {
                 text="Cli.tla's CloneTouchesOnlyOutput and CompressLeavesOnlyArchive model-checked over the mode product; for every mode (plain, seed files, stdin seed, in-place, local and HTTP, with/without verification; compress from file and stdin, with/without --force-create) strace records every open/creat/write/truncate/unlink/rename/link/mkdir of the process tree, projected to file roles, and CliTrace.tla rejects any write-open, creation, truncation, removal or rename of anything but the output (clone) or the archive and its temp file (compress), plus directory listings before/after.",
                 note="observation by strace -f -y; stdio, sockets and eventfds are classified as such",
                 tech="TLA+ spec + TLC exhaustive over the mode product; strace-observed real processes; TLC trace validation"),
+    "C17": dict(cat="model_checking", design="6 C17",
+                text="ArchiveFormat.Conforming states the class of archives every reader must accept; TLC enumerates every descriptor order x storage order x gap pattern x slack (1226 / 15k encodings) with the other format freedoms drawn per scenario; an independent encoder writes the bytes (each checked against Conforming by TLC), the real reader opens and clones them locally, over HTTP and through bita clone / bita info; CloneTrace.tla requires the reported values to equal the encoder's inputs, every archive read to be exactly a stored range at data_off + archive_offset (nothing inferred from contiguity), and the output to equal the source.",
+                note="independent encoder trusted; brotli only for compressed chunks in this check (other codecs are exercised by C01)",
+                tech="TLA+ format spec + TLC enumeration of conforming encodings; independent encoder; TLC trace validation of the real reader"),
 }
 
 NOT_YET = {
